@@ -18,6 +18,7 @@ def spec_script(kind, payload, witver=0):
 
 
 def run(tier, seed, opens):
+    from bitcoinlib.transactions import Transaction
     from bitcoinlib.transactions import Output
     from bitcoinlib.keys import Address, HDKey
     from bitcoinlib.networks import NETWORK_DEFINITIONS
@@ -40,7 +41,8 @@ def run(tier, seed, opens):
     nets = sorted(NETWORK_DEFINITIONS)
     for net in nets:
         d = NETWORK_DEFINITIONS[net]
-        kinds = [('p2pkh', 20, 0), ('p2sh', 20, 0), ('p2wpkh', 20, 0), ('p2wsh', 32, 0), ('p2tr', 32, 1)] + [('witness', 32, v) for v in range(2, 17)]
+        kinds = [('p2pkh', 20, 0), ('p2sh', 20, 0), ('p2wpkh', 20, 0), ('p2wsh', 32, 0), ('p2tr', 32, 1)] + [('witness', 32, v) for v in range(2, 17)] \
+            + [('witness', ln_, v) for v in (1, 2, 16) for ln_ in (2, 20, 40)]          # other valid program lengths (BIP141: 2..40 bytes): v1 with 20 bytes is NOT a P2WPKH
         for kind, ln, witver in kinds:
             for _ in range(reps):
                 payload = bytes(rng.getrandbits(8) for _ in range(ln))
@@ -70,12 +72,60 @@ def run(tier, seed, opens):
                 try:
                     o = Output(1000, lock_script=script, network=net)
                     got = (o.address, o.public_hash)
-                    if got == (addr, payload):
-                        ok += 1
+                    if got == (addr, payload) or (kind == 'witness' and ln not in (20, 32)):
+                        ok += 1            # (witness programs of unusual length are not standard scripts: what is reported for them is outside the property)
                     else:
                         fail('script->address', inp, repr(got), repr((addr, payload)))
                 except Exception as e:
-                    fail('script->address', inp, 'raises %r' % e, addr)
+                    if kind == 'witness' and ln not in (20, 32):
+                        ok += 1            # witness programs of unusual length are not standard destinations: refusing to name an address is allowed
+                    else:
+                        fail('script->address', inp, 'raises %r' % e, addr)
+                # B2: the same script as an output of a serialised transaction, parsed under this network through every entry form
+                if _ == 0 or tier != 'quick':
+                    from spec import wire as _wire
+                    from io import BytesIO as _BytesIO
+                    rawtx = _wire.ser_tx(2, [(bytes(32), 0, b'', 0xffffffff, [])], [(1000, script)], 0, False)
+                    for form, arg in (('hex text', rawtx.hex()), ('bytes', rawtx), ('BytesIO', None), ('parse_hex', rawtx.hex()), ('parse_bytes', rawtx)):
+                        cases += 1
+                        try:
+                            if form == 'BytesIO':
+                                tp = Transaction.parse(_BytesIO(rawtx), network=net)
+                            elif form == 'parse_hex':
+                                tp = Transaction.parse_hex(arg, network=net)
+                            elif form == 'parse_bytes':
+                                tp = Transaction.parse_bytes(arg, network=net)
+                            else:
+                                tp = Transaction.parse(arg, network=net)
+                            got = (tp.network.name, tp.outputs[0].address, tp.outputs[0].lock_script)
+                            if got == (net, addr, script) or (kind == 'witness' and ln not in (20, 32) and got[0] == net and got[2] == script):
+                                ok += 1
+                            else:
+                                fail('script->address in a parsed transaction (%s)' % form, inp, repr(got), repr((net, addr, script)))
+                        except Exception as e:
+                            if kind == 'witness' and ln not in (20, 32):
+                                ok += 1        # (as in B: no address is named for witness programs of unusual length)
+                            else:
+                                fail('script->address in a parsed transaction (%s)' % form, inp, 'raises %r' % e, addr)
+                # A2: the destination given as an Address OBJECT (also the nested-segwit kinds, whose address is a P2SH address)
+                if _ == 0 and kind in ('p2pkh', 'p2sh', 'p2wpkh', 'p2wsh'):
+                    import hashlib as _h
+                    objs = [('same kind', Address(hashed_data=payload, script_type=kind, network=net, encoding='base58' if kind in ('p2pkh', 'p2sh') else 'bech32'), script)]
+                    if kind == 'p2pkh':
+                        data = bytes([2]) + bytes(rng.getrandbits(8) for _ in range(32))
+                        h160 = lambda b: _h.new('ripemd160', _h.sha256(b).digest()).digest()
+                        objs.append(('p2sh_p2wpkh from a public key', Address(data, script_type='p2sh_p2wpkh', network=net), b'\xa9\x14' + h160(b'\x00\x14' + h160(data)) + b'\x87'))
+                        objs.append(('p2sh_p2wsh from a script', Address(data, script_type='p2sh_p2wsh', network=net), b'\xa9\x14' + h160(b'\x00\x20' + _h.sha256(data).digest()) + b'\x87'))
+                    for label, aobj, want in objs:
+                        cases += 1
+                        try:
+                            o = Output(1000, address=aobj, network=net)
+                            if o.lock_script == want and o.address == aobj.address:
+                                ok += 1
+                            else:
+                                fail('Address object -> script (%s)' % label, dict(inp, address_object=aobj.address), '%s / %s' % (o.lock_script.hex(), o.address), '%s / %s' % (want.hex(), aobj.address))
+                        except Exception as e:
+                            fail('Address object -> script (%s)' % label, dict(inp, address_object=aobj.address), 'raises %r' % e, want.hex())
                 # C: the same address string under a network with different prefixes must be refused
                 other = rng.choice([n for n in nets if NETWORK_DEFINITIONS[n]['prefix_address'] != d['prefix_address']
                                     and NETWORK_DEFINITIONS[n]['prefix_address_p2sh'] != d['prefix_address_p2sh']
